@@ -1,7 +1,7 @@
 import random
 import sys
 from ast import literal_eval
-from datetime import date, datetime
+from datetime import date, datetime, timedelta
 from functools import lru_cache
 from datetime import timezone
 from typing import Any, List, Tuple, Union
@@ -66,6 +66,11 @@ def parse_datetimespec(d: Union[str, datetime, date]) -> datetime:
         return datetime.now(tz=timezone.utc)
     elif isinstance(d, str) and d == "today":
         return datetime.combine(date.today(), datetime.min.time(), tzinfo=timezone.utc)
+    elif isinstance(d, str) and d and DateProvider.regex.fullmatch(d):
+        # relative to now, in the syntax date_between accepts: -30d, +1y, -2w+3h ...
+        return datetime.now(tz=timezone.utc) + timedelta(
+            seconds=DateProvider._parse_timedelta(d)
+        )
     return _parse_datetimespec(d)
 
 
